@@ -614,6 +614,10 @@ Definition chk_row_C18 : rowchk := fun key coll x op pre resp evs post =>
 
 Definition chk_C18_kv := chk_kv chk_row_C18.
 
+(* C01 with "missing iff never written, deleted or purged": a purge takes away only body-less documents *)
+Definition chk_C01_full (t : scase * list ostep) : bool :=
+  chk_C01_kv t && walk chk_step_purge (snap0 (fst t)) (sc_steps (fst t)) (snd t).
+
 Definition chk_C05_full (t : scase * list ostep) : bool :=
   chk_C05_kv t && walk chk_step_purge (snap0 (fst t)) (sc_steps (fst t)) (snd t).
 
